@@ -9,9 +9,12 @@ import (
 	"sort"
 	"strings"
 	"sync"
+	"sync/atomic"
 	"testing"
 	"testing/synctest"
 	"time"
+
+	"verif/sim/shim/simyield"
 )
 
 // Sim is the per-run simulation context. It must be created inside the bubble.
@@ -35,6 +38,7 @@ type Sim struct {
 	probes  map[string]int
 	viols   []Violation
 	stopped bool
+	yields  atomic.Int64
 }
 
 // NewSim must be called from inside a synctest bubble.
@@ -114,6 +118,37 @@ func (s *Sim) AtAbs(at time.Duration, f func()) time.Duration {
 func (s *Sim) Pause() {
 	at := s.Reserve(s.Now() + 1)
 	time.Sleep(at - s.Now())
+}
+
+// EnableYields turns the yield points of the instrumented library packages
+// (sim/shim/simyield) into plan-driven pauses: the n-th point reached in this
+// run pauses its goroutine for tape[n mod len] microseconds (0: it goes on at
+// once). Nothing else decides: the same plan gives the same pauses. Call
+// DisableYields before the run ends.
+func (s *Sim) EnableYields(tape []int) {
+	if len(tape) == 0 {
+		return
+	}
+	var n atomic.Int64
+	simyield.Set(func() {
+		i := n.Add(1) - 1
+		us := tape[int(i%int64(len(tape)))]
+		if us <= 0 {
+			return
+		}
+		if us > 10_000_000 {
+			us = 10_000_000
+		}
+		s.yields.Add(1)
+		at := s.Reserve(s.Now() + time.Duration(us)*time.Microsecond)
+		time.Sleep(at - s.Now())
+	})
+}
+
+// DisableYields removes the hook and returns how many pauses were taken.
+func (s *Sim) DisableYields() int {
+	simyield.Clear()
+	return int(s.yields.Load())
 }
 
 // Events returns how many environment instants were reserved so far (a measure
